@@ -1,8 +1,118 @@
-/- line-protocol handlers for the C12 models (stub: nothing modelled yet) -/
+/- line-protocol handlers for the C12 models (Model/ToPath.lean, Model/Carve.lean, Model/DrawInst.lean) -/
 import FontVerif.Model.Base
+import FontVerif.Model.ToPath
+import FontVerif.Model.Carve
+import FontVerif.Model.DrawInst
 namespace FontVerif.Drv.C12
 open FontVerif
 
-def handle (_cmd : String) (_args : List String) : Option String := none
+def pairs : List Int → Option (List (Int × Int))
+  | [] => some []
+  | x :: y :: r => (pairs r).map ((x, y) :: ·)
+  | _ => none
+
+def style? : Int → Option ToPath.Style
+  | 0 => some .freeType
+  | 1 => some .harfBuzz
+  | _ => none
+
+def coord? : Int → Option ToPath.Coord
+  | 0 => some ToPath.fixedCoord
+  | 1 => some ToPath.exactCoord
+  | _ => none
+
+def bool? : Int → Option Bool
+  | 0 => some false
+  | 1 => some true
+  | _ => none
+
+def nats? (xs : List Int) : Option (List Nat) := xs.mapM fun v => if v < 0 then none else some v.toNat
+
+def counts? (xs : List Int) : Option Carve.Counts :=
+  match xs with
+  | [a, b, c, d, e, f, g, h, i, j, k] =>
+    if a < 0 ∨ b < 0 ∨ c < 0 ∨ d < 0 ∨ e < 0 ∨ f < 0 ∨ g < 0 ∨ h < 0 ∨ i < 0 then none else
+    match bool? j, bool? k with
+    | some hh, some hv => some ⟨a.toNat, b.toNat, c.toNat, d.toNat, e.toNat, f.toNat, g.toNat, h.toNat, i.toNat, hh, hv⟩
+    | _, _ => none
+  | _ => none
+
+/-- `tp kind style np nf nc  x y …  f …  e …` -/
+def handleToPath (xs : List Int) : Option String :=
+  match xs with
+  | kind :: st :: np :: nf :: nc :: rest =>
+    if np < 0 ∨ nf < 0 ∨ nc < 0 then none else
+    let np := np.toNat; let nf := nf.toNat; let nc := nc.toNat
+    if rest.length ≠ 2 * np + nf + nc then none else
+    match coord? kind, style? st, pairs (rest.take (2 * np)), nats? ((rest.drop (2 * np)).take nf),
+          nats? (rest.drop (2 * np + nf)) with
+    | some C, some style, some pts, some flags, some contours =>
+      some (ToPath.render (ToPath.toPath C style pts flags contours))
+    | _, _, _, _, _ => none
+  | _ => none
+
+/-- glyph tree for `counts`: prefix encoding
+  `0 numPoints numContours instr` = simple, `1 n instr <n components>` = composite, `2` = empty component -/
+partial def parseGlyph : List Int → Option (Option Carve.Glyph × List Int)
+  | 2 :: r => some (none, r)
+  | 0 :: np :: nc :: instr :: r =>
+    if np < 0 ∨ nc < 0 then none else
+    (bool? instr).map fun i => (some (.simple np.toNat nc.toNat i), r)
+  | 1 :: n :: instr :: r =>
+    if n < 0 then none else
+    match bool? instr with
+    | none => none
+    | some i =>
+      let rec comps (k : Nat) (r : List Int) (acc : List (Option Carve.Glyph)) :
+          Option (List (Option Carve.Glyph) × List Int) :=
+        match k with
+        | 0 => some (acc.reverse, r)
+        | k + 1 => match parseGlyph r with
+          | none => none
+          | some (g, r') => comps k r' (g :: acc)
+      match comps n.toNat r [] with
+      | none => none
+      | some (cs, r') => some (some (.composite cs i), r')
+  | _ => none
+
+def handle (cmd : String) (args : List String) : Option String :=
+  match parseInts? args with
+  | none => none
+  | some xs =>
+    match cmd, xs with
+    | "tp", xs => handleToPath xs
+    | "wf", xs =>
+      -- grammar check on a command-kind string: 0 move 1 line 2 quad 3 cubic 4 close
+      let cmds? := xs.mapM fun (k : Int) => match k with
+        | 0 => some (ToPath.Cmd.move 0 0) | 1 => some (ToPath.Cmd.line 0 0)
+        | 2 => some (ToPath.Cmd.quad 0 0 0 0) | 3 => some (ToPath.Cmd.cubic 0 0 0 0 0 0)
+        | 4 => some ToPath.Cmd.close | _ => none
+      cmds?.map fun cs => if ToPath.wellFormed cs then "1" else "0"
+    | "carve.ft", emb :: base :: len :: cs =>
+      if base < 0 ∨ len < 0 then none else
+      match bool? emb, counts? cs with
+      | some e, some c =>
+        some (Carve.renderLayout base.toNat Carve.ftFieldOrder (Carve.ftCarve c e ⟨base.toNat, len.toNat⟩))
+      | _, _ => none
+    | "carve.hb", base :: len :: cs =>
+      if base < 0 ∨ len < 0 then none else
+      match counts? cs with
+      | some c =>
+        some (Carve.renderLayout base.toNat ((Carve.hbProgram c).map (·.name)) (Carve.hbCarve c ⟨base.toNat, len.toNat⟩))
+      | none => none
+    | "carve.size", emb :: cs =>
+      match bool? emb, counts? cs with
+      | some e, some c => some (toString (Carve.requiredBufferSize c e))
+      | _, _ => none
+    | "eff", cs => some (joinInts (DrawInst.effectiveCoords cs))
+    | "counts", ms :: cvt :: st :: tw :: gv :: rest =>
+      if ms < 0 ∨ cvt < 0 ∨ st < 0 ∨ tw < 0 then none else
+      match bool? gv, parseGlyph rest with
+      | some g, some (glyph, []) =>
+        match Carve.outlineCounts ⟨ms.toNat, cvt.toNat, st.toNat, tw.toNat, g⟩ glyph with
+        | none => some "err:RecursionLimitExceeded"
+        | some c => some (Carve.renderCounts c)
+      | _, _ => none
+    | _, _ => none
 
 end FontVerif.Drv.C12
